@@ -16,6 +16,8 @@
 // TODO: Eliminate later
 #![allow(clippy::missing_safety_doc)]
 #![allow(clippy::arc_with_non_send_sync)]
+// Verification hook (guard: cfg(kani)): harness stubs need to name the allocator parameter of std::sync::Arc.
+#![cfg_attr(kani, feature(allocator_api))]
 
 #[macro_use]
 extern crate memoffset;
